@@ -6,21 +6,34 @@ CHECKS = {
  'C03': dict(
   text=('Theorems over ALL operation sequences / ALL thread counts, programs and schedules of a hand-written model of message.go '
         '(sequential first-wins law; thread-level transition system proved linearizable by an invariant: lin points form a legal sequential '
-        'history, same winner for all callers, no panic, mutual exclusion). Tied to the code on every run: exhaustive sweep of all sequences '
-        'up to length 6 (quick) / 8 (thorough) on three constructors compared with the model, and concurrent runs whose hook-stamp order is '
-        'replayed on the transition system label by label; a linearizability acceptor judges the implementation histories.'),
+        'history, same winner for all callers, no panic, mutual exclusion; the linearizability acceptor that judges implementation histories is proved to '
+        'accept the stamped call history of every quiescent model state). A world model of any number of messages (NewMessage, zero value, Copy(), '
+        'metadata maps as references, contexts): every message is its own first-wins machine whatever happens to the others, Copy() of a message in any '
+        'state is a fresh unsettled message with the same content and its own map, settling or writing metadata through a copy never shows in the source '
+        'and vice versa, SetContext/Context are irrelevant for settlement. Tied to the code on every run: exhaustive sweep of all sequences '
+        'up to length 6 (quick) / 8 (thorough) on five constructors compared with the model, concurrent runs whose hook-stamp order is '
+        'replayed on the transition system label by label and judged by the proved acceptor, seeded multi-message programs (Copy / metadata / context) '
+        'run on real messages and compared with the world model, copies taken while the source is being settled.'),
   note=('Trusted: Coq kernel + vm_compute; the model of sync.Mutex / channel close as atomic steps; the Go harness and stamp->label mapping; '
-        'lin_ok acceptor (executable oracle). "No call blocks" and data races are checked by watchdog / -race (testing), not proved.'),
+        'that lin_ok REJECTS every non-linearizable history is argued, not proved (that it accepts every model history is a theorem). '
+        'Payload bytes are immutable in the model (Copy() shares the slice). "No call blocks" and data races are checked by watchdog / -race (testing), not proved.'),
   technique='Coq proof (invariant over a thread-level LTS, induction over op sequences) + differential correspondence check with schedule replay',
   design_ref='DESIGN.md section 7 C03'),
  'C02': dict(
   text=('Theorems for EVERY handler behaviour (any output list, error with/without outputs, panic, own Ack/Nack first), publisher kind and behaviour '
         'about a hand-written model of handleMessage/publishProducedMessages layered on the C03 settlement model: settles exactly once as the last action, '
         'Ack iff no error and outputs accepted, own settlement never overridden, Ack only after Publish returned nil, nothing published on error, '
-        'outputs unmodified in order in one call. Tied to the code on every run: the full behaviour matrix (1674 scripted cases) is run through a real '
-        'Router with 1..8 messages in flight and every per-message trace is compared with the model and judged by the proved acceptor.'),
+        'outputs unmodified in order in one call; the same from ANY arrival state reachable in the C03 model (a message that arrives acked / nacked: chain '
+        'still invoked once, one Router settle call, the arrival settlement stays). A thread-level model of the handler run loop (receive, WaitGroup Add, '
+        'go handleMessage) with any number of messages in flight, for EVERY schedule: the projection of the one global log onto a message is a prefix of its '
+        'handleMessage trace (all of it once its thread finished), every finished message was settled exactly once, a Publish call on the shared publisher '
+        'carries the outputs of exactly one consumed message, the WaitGroup counter equals the number of running goroutines. Tied to the code on every run: '
+        'the full behaviour matrix (3546 scripted cases incl. messages that arrive settled) is run through real Routers with 1..8 messages in flight; every '
+        'per-message trace is compared with the model and judged by the proved acceptor, and the ONE interleaved log of every handler (75 run loops) is '
+        'replayed strictly on the loop model and judged by the proved acceptor loop_monitor.'),
   note=('Trusted: Coq kernel + vm_compute; recover()/goroutine semantics as modelled; scripted subscriber/publisher/handler and the message hook stamps '
-        'that observe the Router\'s settle calls; the Router\'s Ack()/Nack() return value is not observable.'),
+        'that observe the Router\'s settle calls; the Router\'s Ack()/Nack() return value is not observable; the order of the interleaved log is the order '
+        'of stamping under one mutex (each event stamped by the goroutine that performs it).'),
   technique='Coq proof (exhaustive case analysis over the scripted behaviour space, polymorphic in the message type) + differential correspondence check on a real Router',
   design_ref='DESIGN.md section 7 C02'),
  'C05': dict(
